@@ -283,19 +283,61 @@ fn pattern_to_gallina(pat: &str) -> String
 /// The regex shown in the user guide for extracting references from log output.
 fn documented_regex(repo: &str) -> String
 {
-    let path = std::path::Path::new(repo).join("docs/source/using-log-references.rst");
-    let text = std::fs::read_to_string(&path)
-        .unwrap_or_else(|e| refuse(&format!("cannot read {}: {}", path.display(), e)));
-    // the guide shows the pattern on a line of its own inside a code block
-    for line in text.lines()
+    // the guide shows the pattern on a line of its own (inside a code block): a line that, trimmed and without
+    // surrounding back-quotes, starts with `\[ref: ` and ends with `\]`.  Looked for in every text file under
+    // docs/ and in the README, wherever the section lives; all occurrences must agree.
+    fn walk(dir: &std::path::Path, out: &mut Vec<std::path::PathBuf>)
     {
-        let t = line.trim();
-        if t.starts_with("\\[ref: ") && t.ends_with("\\]")
+        if let Ok(rd) = std::fs::read_dir(dir)
         {
-            return t.to_string();
+            let mut entries: Vec<_> = rd.filter_map(|e| e.ok()).collect();
+            entries.sort_by_key(|e| e.path());
+            for e in entries
+            {
+                let p = e.path();
+                if p.is_dir()
+                {
+                    walk(&p, out);
+                }
+                else if p.extension().map_or(false, |x| x == "rst" || x == "md" || x == "txt")
+                {
+                    out.push(p);
+                }
+            }
         }
     }
-    refuse("documented extraction regex not found in docs/source/using-log-references.rst")
+    let root = std::path::Path::new(repo);
+    let mut files = Vec::new();
+    walk(&root.join("docs"), &mut files);
+    for n in ["README.md", "README.rst", "README"]
+    {
+        if root.join(n).is_file()
+        {
+            files.push(root.join(n));
+        }
+    }
+    let mut found: Vec<String> = Vec::new();
+    for f in files
+    {
+        if let Ok(text) = std::fs::read_to_string(&f)
+        {
+            for line in text.lines()
+            {
+                let t = line.trim().trim_matches('`').trim();
+                if t.starts_with("\\[ref: ") && t.ends_with("\\]")
+                {
+                    found.push(t.to_string());
+                }
+            }
+        }
+    }
+    found.dedup();
+    match found.len()
+    {
+        1 => found.remove(0),
+        0 => refuse("documented extraction regex not found under docs/ or in the README"),
+        _ => refuse(&format!("the documentation shows different extraction regexes: {:?}", found)),
+    }
 }
 
 pub fn translate(repo: &str) -> String
